@@ -37,6 +37,9 @@ var standins = map[string][]standin{
 	"C18": {{Name: "C18", Pkg: "knx/cemi", File: "cemi_addr_test.go", Run: "^TestKvcStandinC18$",
 		Domain: "all 65,535 non-zero group and individual addresses (format then parse); all 3-level component triples in [-3,35]x[-3,19]x[-3,259], 2-level pairs in [-3,259]x[-3,2051], raw values in [-3,65539]; 42 malformed texts; every argument combination of the four component constructors",
 		Stands: "the composition of the parsers/formatters with the real fmt.Sprintf, strings.Split and strconv.Atoi, which the deductive check replaces by assumed contracts over an abstract decimal-text view"}},
+	"C19": {{Name: "C19", Pkg: "knx/dpt", File: "dpt_registry_test.go", Run: "^TestKvcStandinC19$",
+		Domain: "all listed names (reflection on the produced values), 8 unknown names, every exported DPT_* type declaration found by go/parser in the package directory, 16 goroutines x 20 rounds of Produce/Unpack/Produce over all names (one sampled family of schedules)",
+		Stands: "agreement of the table read from the initialiser's SSA with the running package, and instance independence under concurrent use, which the sequential contracts do not cover"}},
 	"C07": {{Name: "C07F16", Pkg: "knx/dpt", File: "dpt_f16_test.go", Run: "^TestKvcStandinC07F16$",
 		Domain: "every float32 bit pattern except NaNs (4,261,412,866 values) through packF16/unpackF16, in increasing order; plus both range end points of each 9.xxx type",
 		Stands: "format, self-decodability, one-step accuracy within [-670760,670760], saturation outside, and monotonicity of the shared two-octet float codec"},
@@ -77,6 +80,15 @@ func runStandins(prop string, o checkOpts, res *checkResult) {
 		cmd.Env = append(os.Environ(), "GOFLAGS=-mod=mod", "GOPROXY=off", "GOSUMDB=off", "GOTOOLCHAIN=local")
 		if o.tier == "thorough" {
 			cmd.Env = append(cmd.Env, "KVC_THOROUGH=1")
+		}
+		if prop == "C19" {
+			var ks []string
+			for _, f := range loadKnown().Findings {
+				if f.Property == "C19" && strings.Contains(f.Obligation, "#table.keyform:") {
+					ks = append(ks, f.Obligation[strings.Index(f.Obligation, "#table.keyform:")+len("#table.keyform:"):])
+				}
+			}
+			cmd.Env = append(cmd.Env, "KVC_KNOWN_KEYFORM="+strings.Join(ks, ","))
 		}
 		out, err := cmd.CombinedOutput()
 		os.RemoveAll(dir)
